@@ -717,6 +717,17 @@ def World.flowProxy (w : World) (sid : Nat) : World × Nat :=
   ({ w with s := { z1.bindNew v nix with nphs := z.nphs + 1 },
             c := { w.c with tcs := upd w.c.tcs z.ntcs (w.c.tcs s.tc), phs := upd w.c.phs z.nphs (w.c.phs s.ph) } }, v)
 
+/-- `Stream.copy(thermo=…)`: a new stream object with a copy of the indexer (copies of the data and of the phase container,
+a new `_data_cache`) and a copy of the thermal condition; nothing is shared with the original.  With another property
+package the copied indexer goes through `reset_chemicals` and the contents `R` (mapped by chemical) are a parameter. -/
+def World.copyStream (w : World) (sid k : Nat) (R : List (List Rat)) : Except Err (World × Nat) :=
+  let s := w.stream sid
+  let (T, P) := w.c.tcs s.tc
+  if k = s.th then .ok (w.newStream s.multi s.phases (w.c.phs s.ph) s.th T P (w.readMol sid))
+  else if k ≥ w.thermos.length then .error .precondition
+  else if R.length ≠ (w.rowsOf sid).length then .error .shape
+  else .ok (w.newStream s.multi s.phases (w.c.phs s.ph) k T P R)
+
 /-! ### phase(s) setters -/
 
 /-- `stream.phase = c`.  Single-phase: the phase container is written in place (everything that
@@ -987,6 +998,7 @@ inductive Op where
   | view (s : Nat) (c : Char)
   | proxy (s : Nat)
   | flowProxy (s : Nat)
+  | copy (s k : Nat) (R : Mat)
   | readMol (s : Nat)
   | readMass (s : Nat)
   | readVol (s : Nat) (V : Mat)
@@ -1021,7 +1033,7 @@ inductive Out where
 def Op.sids : Op → List Nat
   | .new1 .. | .newm .. | .unitFor .. => []
   | .setT s _ | .setP s _ | .setPhase s _ _ | .setPhases s _ _ | .unlink s | .thermo s _ _
-  | .sync s _ _ _ _ | .mixInto s _ _ _ | .view s _ | .proxy s | .flowProxy s
+  | .sync s _ _ _ _ | .mixInto s _ _ _ | .view s _ | .proxy s | .flowProxy s | .copy s _ _
   | .readMol s | .readMass s | .readVol s _ | .readF s _ _ | .writeF s _ _ _ | .get s _ _ _ _
   | .put s _ _ _ _ _ | .putRow s _ _ _ _ | .getFlow s _ _ _ _ | .setFlow s _ _ _ _ _ | .getTotal s _ _ | .setTotal s _ _ _
   | .getData s _ _ _ _ _ | .setData s _ _ _ _ _ _ | .getProp s _ _ _ | .setProp s _ _ _ _
@@ -1073,6 +1085,7 @@ def World.exec (w : World) (op : Op) : Except Err (World × Out) :=
   | .view s c => (w.phaseView s c).map (fun (w1, v) => (w1, .sid v))
   | .proxy s => let (w1, v) := w.proxy s; .ok (w1, .sid v)
   | .flowProxy s => let (w1, v) := w.flowProxy s; .ok (w1, .sid v)
+  | .copy s k R => (w.copyStream s k R).map (fun (w1, v) => (w1, .sid v))
   | .readMol s => .ok (w, .mat none (w.readMol s))
   | .readMass s => let (w1, vid, vals) := w.readMass s; .ok (w1, .mat (some vid) vals)
   | .readVol s V => let (w1, vid, vals) := w.readVol s V; .ok (w1, .mat (some vid) vals)
